@@ -145,7 +145,7 @@ func propDefs() map[string]*PropDef {
 		Funcs: []FuncCheck{
 			{Fn: "(*alphaSortedTree[K,V]).Search", Layer: "C", Include: []string{`/arg_bytes_unchanged`, `/pure`}},
 			{Fn: "(*alphaSortedTree[K,V]).Delete", Layer: "C", Include: []string{`/arg_bytes_unchanged@ret#[1-689](~|$)`, `/noop_frame`}},
-			{Fn: "(*alphaSortedTree[K,V]).Insert", Layer: "C", Include: []string{`/key_owned`, `/arg_bytes_unchanged@ret#(1|2|5|6|7)/`}},
+			{Fn: "(*alphaSortedTree[K,V]).Insert", Layer: "C", Include: []string{`/key_owned`, `/arg_bytes_unchanged@ret#(1|2|5|7)/`, `/arg_bytes_unchanged@ret#6/calls\("Insert\$1"\)=1$`}},
 			{Fn: "(*CollationOrderKey[K]).Transform@bytes", Layer: "C"},
 			{Fn: "(*alphaSortedTree[K,V]).Prefix", Layer: "C", Include: []string{`/arg_bytes_unchanged`, `/pure`}},
 			{Fn: "(*alphaSortedTree[K,V]).Range", Layer: "C", Include: []string{`/arg_bytes_unchanged`, `/pure`}},
